@@ -260,7 +260,7 @@ impl Property for C08 {
     }
     fn runs(&self, tier: &str) -> u64 {
         if tier == "thorough" {
-            1_000
+            600
         } else {
             2_400
         }
